@@ -56,6 +56,50 @@ func NodeKind(v any) (string, int) {
 	return "scalar", 0
 }
 
+// sliceClass is the coarse class of a slice applied to an array of length n:
+// the sign of the step, the sign of each bound (an omitted end is its own
+// class) and whether a bound lies outside the array (start < -n or >= n, end
+// < -n or > n). One defect of a bound normalisation then shows in a handful
+// of cells instead of one per magnitude relation.
+func sliceClass(f JPFrag, n int) string {
+	st, en, sp := SliceParts(f)
+	sign := func(b int) string {
+		if b < 0 {
+			return "neg"
+		}
+		return "nonneg"
+	}
+	step := "+"
+	switch {
+	case sp == 0:
+		step = "0"
+	case sp < 0:
+		step = "-"
+	}
+	end, rng := sign(en), "inside"
+	if en == MaxEnd {
+		end = "omitted"
+	} else if en < -n || n < en {
+		rng = "outside"
+	}
+	if st < -n || n <= st {
+		rng = "outside"
+	}
+	return "step=" + step + ",start=" + sign(st) + ",end=" + end + ",range=" + rng
+}
+
+// ReprClass groups the representation families by the code that evaluates
+// them: simple, gen, keyed, indexed, and reflect (typed slices, arrays,
+// structs, pointers to structs).
+func ReprClass(name string) string {
+	switch f := ReprFamily(name); f {
+	case "typed", "array", "struct", "pstruct":
+		return "reflect"
+	default:
+		return f
+	}
+}
+
 // SliceParts returns start, end, step of a slice fragment description.
 func SliceParts(f JPFrag) (st, en, sp int) {
 	st, en, sp = 0, MaxEnd, 1
@@ -79,8 +123,7 @@ func FragBound(f JPFrag, node any) string {
 	case "nth":
 		return BoundClass(f.N, n, false) + "@" + kind
 	case "slice":
-		st, en, sp := SliceParts(f)
-		return "step=" + StepClass(sp) + ",start=" + BoundClass(st, n, st == 0 && len(f.S) < 2) + ",end=" + BoundClass(en, n, en == MaxEnd) + "@" + kind
+		return sliceClass(f, n) + "@" + kind
 	case "union":
 		seen := map[string]bool{}
 		var ms []string
